@@ -573,6 +573,9 @@ fn bespoke_spellings(ctx: &Ctx, runs: &AtomicU64) {
 
 pub fn replay(case: &serde_json::Value) -> i32 {
     println!("{}", serde_json::to_string_pretty(case).unwrap());
+    if case["script"].is_string() && super::c20d::replay(case) {
+        return 1;
+    }
     if let (Some(b), Some(s)) = (case["builtin"].as_str(), case["spelling"].as_str()) {
         if let Some(u) = usage(b) {
             println!("{:?}", run_invocation(&u, s));
@@ -647,15 +650,18 @@ pub fn run(tier: Tier) -> i32 {
     let groups = AtomicU64::new(0);
     builtin_spellings(&ctx, &runs, &groups, &samples);
     bespoke_spellings(&ctx, &runs);
+    let (g_runs, g_calls, g_errs) = super::c20d::sweep(&ctx, &samples);
     let cat = catalogue();
     let cov = json!({
-        "evaluations": evals.load(Relaxed) + startup + runs.load(Relaxed),
-        "distinct_nontrivial": errors.load(Relaxed) + groups.load(Relaxed),
-        "rule": format!("(a) parse_arguments on every subset of 7 option specs (-a, -b, -o ARG, --long, --lone, --opt ARG, -l/--lo) x every argument vector of length <= {maxlen} over 19 arguments (-, --, -a, -ab, -b, -oX, -o, -aoX, --long, --lo, --l, --lon, --opt=X, --opt, --opt=X=Y, --opt=, --long=X, X, -z) x both modes, against refgetopt (options with arguments and operands, or the error class); start-up argument vectors under spelling rewrites; (b) for each of the {} built-ins with documented long options ({} pairs read mechanically from docs/src/builtins/*.md), every single option and ordered pair in all equivalent spellings (separate/grouped shorts, attached/detached arguments, -- before operands, full long names, every unambiguous prefix, = / separate long argument, mixed) must give identical stdout, diagnostics, status and state snapshot; malformed variants (unknown, ambiguous prefix, missing argument, argument to a flag) must be rejected with a diagnostic, non-zero status and unchanged state. Non-trivial = vectors whose expected result is an error + spelling groups.", cat.len(), cat.values().map(|v| v.len()).sum::<usize>()),
+        "evaluations": evals.load(Relaxed) + startup + runs.load(Relaxed) + g_runs,
+        "distinct_nontrivial": errors.load(Relaxed) + groups.load(Relaxed) + g_errs,
+        "rule": format!("(a) parse_arguments on every subset of 7 option specs (-a, -b, -o ARG, --long, --lone, --opt ARG, -l/--lo) x every argument vector of length <= {maxlen} over 19 arguments (-, --, -a, -ab, -b, -oX, -o, -aoX, --long, --lo, --l, --lon, --opt=X, --opt, --opt=X=Y, --opt=, --long=X, X, -z) x both modes, against refgetopt (options with arguments and operands, or the error class); start-up argument vectors under spelling rewrites; (b) for each of the {} built-ins with documented long options ({} pairs read mechanically from docs/src/builtins/*.md), every single option and ordered pair in all equivalent spellings (separate/grouped shorts, attached/detached arguments, -- before operands, full long names, every unambiguous prefix, = / separate long argument, mixed) must give identical stdout, diagnostics, status and state snapshot; malformed variants (unknown, ambiguous prefix, missing argument, argument to a flag) must be rejected with a diagnostic, non-zero status and unchanged state. (d) the getopts built-in: 10 option specifications (with and without the leading colon, options with arguments, a non-ASCII option letter, empty) x every argument vector of length <= {} over 17 arguments (grouped / attached / separate, unknown letters, `--`, `-`, empty, non-ASCII letters, `:`) parsed to the end by the usual loop, arguments given as operands, as the shell's positional parameters and as a function's; vectors <= 2 are followed by OPTIND=1 and one of 10 second vectors; option letter, OPTARG set/unset, status, diagnostic and OPTIND at every argument boundary compared with a transcription of POSIX getopts. Non-trivial = vectors whose expected result is an error + spelling groups + getopts runs containing an error step.", cat.len(), cat.values().map(|v| v.len()).sum::<usize>(), tier.pick(3, 4)),
         "samples": samples.take(),
         "generic_parser_evaluations": evals.load(Relaxed),
         "startup_vectors": startup,
         "builtin_runs": runs.load(Relaxed),
+        "getopts_runs": g_runs,
+        "getopts_calls_compared": g_calls,
         "spelling_groups": groups.load(Relaxed),
         "documented_option_pairs": cat.iter().map(|(k, v)| (k.clone(), v.iter().map(|o| format!("-{} --{}", o.short, o.long)).collect::<Vec<_>>())).collect::<BTreeMap<_, _>>(),
         "exhaustive": true,
